@@ -8,3 +8,17 @@ package debug
 //@   props C12 C19
 //@   trusted
 //@   note the renderer's slice arithmetic is not under contract; its totality is checked only by the bounded stand-in of C19
+
+// Rec appends exactly one entry for v whose column is the first free column
+// at or after col; entries already recorded are untouched (C19: every recorded
+// value is shown, each under a column of its own).
+//@ func (*Record).Rec
+//@   props C19
+//@   requires r != nil
+//@   modifies r.vs, r.vs[*]
+//@   loop 1 invariant forall(j, 0, rangeindex+1, r.vs[j].col != col)
+//@   loop 1 invariant same(r.vs, old(r.vs)) && forall(j, 0, len(r.vs), r.vs[j].v == old(r.vs[j].v) && r.vs[j].col == old(r.vs[j].col))
+//@   ensures #one len(r.vs) == old(len(r.vs)) + 1
+//@   ensures #value r.vs[old(len(r.vs))].v == v && r.vs[old(len(r.vs))].col >= col
+//@   ensures #distinct forall(j, 0, old(len(r.vs)), r.vs[j].col != r.vs[old(len(r.vs))].col)
+//@   ensures #prefix forall(j, 0, old(len(r.vs)), r.vs[j].v == old(r.vs[j].v) && r.vs[j].col == old(r.vs[j].col))
